@@ -5,7 +5,7 @@ import ast
 from ..model import AnalysisError, src
 from ..paths import function_paths, walk_no_defs, calls_in, atoms
 from ..callgraph import fmt
-from .. import sa, ctx as ctxmod, guards
+from .. import abshelp as H, sa, ctx as ctxmod, guards
 
 NINE = ['#ERROR!', '#DIV/0!', '#NAME?', '#N/A', '#NULL!', '#NUM!', '#REF!', '#VALUE!', '#GETTING_DATA']
 CATCH_ALL = ('Exception', 'BaseException')
@@ -34,6 +34,8 @@ def run(model, res, tier):
     res.rule('R4', 'error set => result None; result is never an error object')
     res.rule('R5', 'every reachable loop has a termination argument')
     res.rule('R6', 'no regular expression used by the lexer or by reachable code is exponentially ambiguous')
+    res.rule('R8', 'turning an error object into its code cannot raise: a __str__ the error class defines returns text for every way an '
+             'error object can have been built (no argument, a non-text argument, several arguments)')
     res.rule('R7', 'event delivery runs over a snapshot of the listener list: a listener that subscribes (itself) during delivery cannot make the evaluation run forever (shared with C20.R1)')
     res.assumptions += ['A1 host lists are finite; str() of a raised exception does not raise',
                         'A4 stdlib iterables other than itertools.count/cycle/repeat are finite',
@@ -41,14 +43,14 @@ def run(model, res, tier):
     res.trusted += ['CPython ast', 'exception-class hierarchy of the builtins named in handlers']
     root = c.root
     m, f = cg.funcs[root]
-    _r1(model, res, c, m, f, root)
-    _r2(model, res, c, m, f, root)
-    _r3(model, res, c, m, f, root)
-    _r4(model, res, c, m, f, root)
-    _r5(model, res, c)
-    _r6(model, res, c)
+    H.safely(res, 'R1', 'r1', _r1, model, res, c, m, f, root)
+    H.safely(res, 'R2', 'r2', _r2, model, res, c, m, f, root)
+    H.safely(res, 'R3', 'r3', _r3, model, res, c, m, f, root)
+    H.safely(res, 'R4', 'r4', _r4, model, res, c, m, f, root)
+    H.safely(res, 'R5', 'r5', _r5, model, res, c)
+    H.safely(res, 'R6', 'r6', _r6, model, res, c)
+    H.safely(res, 'R8', 'error text', _r8, model, res, c)
     from . import c20
-    from .. import abshelp as H
 
     def delivery(tmp):
         for em_m, em_c in c20.find_emitter(model):
@@ -937,3 +939,45 @@ def _r6(model, res, c):
                           'that return to the same point, so on an input that repeats it and then fails to match, the backtracking '
                           'matcher needs time exponential in the input length - parse() does not return in bounded time' % (pat, w[1]),
                           case=w[1], func=m.qualname_of(node))
+
+
+# ---------------------------------------------------------------------------------------------------
+# R8: str(error object) never raises
+
+def _r8(model, res, c):
+    """parse() reports an error through str(from_message(x)), outside any handler; host code (a custom function, a listener) may
+    hand over error objects built in any way.  RuntimeError.__str__ never raises; an override is interpreted on error objects
+    with no argument, one argument of unknown type, and two arguments, and must return text on every trace."""
+    from ..absint import Interp, Obj, ClassV, ListV, Sym, Const, Unmodelled
+    em, singles = error_singletons(model)
+    classes = model.find_class('XLError')
+    if not classes:
+        raise AnalysisError('error class XLError not found (anchor vanished)')
+    for cm, cc in classes:
+        for dunder in ('__str__', '__repr__'):
+            lm = model.lookup_method(cm, cc, dunder)
+            if not lm:
+                res.ob('R8', '%s:%s' % (cm.name, cc.name), '%s inherited from RuntimeError (never raises)' % dunder, True)
+                continue
+            if dunder == '__repr__' and model.lookup_method(cm, cc, '__str__'):
+                continue        # str() uses __str__
+            for label, mk in (('no argument', lambda: []), ('one argument of any type', lambda: [Sym(None, 'A0')]),
+                              ('a text argument', lambda: [Sym('str', 'T0')]), ('two arguments', lambda: [Sym('str', 'T0'), Sym(None, 'A1')])):
+                it = Interp(model)
+
+                def call(interp, st, mk=mk):
+                    o = Obj(ClassV(cm, cc), {'args': ListV(mk(), 'tuple')})
+                    return interp.call(interp.get_method(o, dunder), [])
+                try:
+                    outs = it.run(call)
+                except Unmodelled as e:
+                    res.ob('R8', '%s:%s.%s' % (cm.name, cc.name, dunder), label, True, 'undecided: %s' % e)
+                    continue
+                bad = [o for o in outs if not o.imprecise and not (o.kind == 'return' and o.value.tag == 'str')]
+                res.ob('R8', '%s:%s.%s' % (cm.name, cc.name, dunder), {'error object built with': label}, not bad, H.describe(outs)[:2])
+                if bad:
+                    res.violation('R8', '%s:%s.%s:not-text' % (cm.name, cc.name, dunder), lm[0].where(lm[2]),
+                                  '%s.%s of an error object built with %s %s; str() then raises TypeError inside parse(), which turns '
+                                  'errors into their code outside any handler - an error object handed over by a custom function or a listener '
+                                  'makes parse() raise instead of returning a record'
+                                  % (cc.name, dunder, label, '; '.join(H.describe(bad)[:2])), case={'built with': label}, func='%s.%s' % (cc.name, dunder))
